@@ -27,6 +27,7 @@ import GomlVerif.Driver.Unify
 import GomlVerif.Driver.Solve
 import GomlVerif.Driver.Infer
 import GomlVerif.Driver.GoPP
+import GomlVerif.Driver.GoLex
 import GomlVerif.Driver.Grammar
 import GomlVerif.Driver.Lower
 
@@ -65,5 +66,6 @@ def main (args : List String) : IO UInt32 := do
   | ["solve"] => Goml.Driver.Solve.main; return 0
   | ["infer"] => Goml.Driver.Infer.main; return 0
   | ["gopp"] => Goml.Driver.GoPP.main; return 0
+  | ["golex"] => Goml.Driver.GoLexD.main; return 0
   | ["lower"] => Goml.Driver.Lower.main; return 0
   | _ => IO.eprintln "usage: gomlmodel <c05|…> < lines"; return 2
